@@ -585,6 +585,9 @@ def family(tier):
     add('disp_nested_keyname', [Packet('Root', [F('basic', 'Kind', typ='u16'), F('match', 'Outer', key='Kind', pairs=[([1], 'Mid'), ([2], 'Beta')])], root=True),
                                 Packet('Mid', [F('basic', 'Kind', typ='u8'), F('match', 'Inner', key='Kind', pairs=[([1], 'Beta'), ([2], 'Alpha')])]), pa, pb],
         opts(LittleEndian='true'), fam='dispatch', note='nested dispatch whose key fields share a name while the tables differ')
+    add('disp_manyfields', [Packet('Root', [F('basic', 'Kind', typ='u16')] + [F('basic', 'F%02d' % i, typ='u8') for i in range(70)] +
+                                   [F('match', 'Payload', key='Kind', pairs=[([1], 'Alpha'), ([2, 3], 'Beta')]), F('basic', 'Tail', typ='u16')], root=True), pa, pb],
+        opts(), fam='dispatch', note='more than 64 fields between the key field and the match that uses it')
     add('disp_keyruns', [Packet('Root', [F('basic', 'Kind', typ='u8'), F('match', 'Payload', key='Kind',
                                                                         pairs=[([1], 'Alpha'), ([10, 11, 20], 'Beta'), ([12], 'Gamma'), ([30, 31, 32, 40], 'Alpha'), ([33], 'Beta')])], root=True), pa, pb, pc],
         opts(), fam='dispatch', note='key lists that are almost, but not quite, consecutive runs')
@@ -645,6 +648,13 @@ def family(tier):
     add('cks_two_same_width', [Packet('Root', [F('checksum', 'Head', typ='u32', alg='ADLER32', spelling='inline'), F('basic', 'A', typ='u16'),
                                                 F('dyn', 'S', spelling='string'), F('checksum', 'Check', typ='u32', alg='CRC32', spelling='prefixed')], root=True)],
         opts(LittleEndian='true'), fam='checksum', note='two checksum fields of the same width and different algorithms in one packet')
+    add('cks_inline_only', [Packet('Root', [F('basic', 'A', typ='u16'), F('dyn', 'S', spelling='string'),
+                                            F('inline', 'Trailer', fields=[F('basic', 'Flags', typ='u8'), F('checksum', 'CheckSum', typ='u32', alg='CRC32', spelling='inline')])], root=True)],
+        opts(), fam='checksum', note='the only calculated-from field of the program sits inside an inline object')
+    add('cks_obj_only', [Packet('Root', [F('basic', 'A', typ='u16'), F('obj', 'Body', typ='Payload'), F('obj', 'End', typ='Trailer')], root=True),
+                         Packet('Payload', [F('basic', 'Qty', typ='u32'), F('dyn', 'S', spelling='string')]),
+                         Packet('Trailer', [F('checksum', 'CheckSum', typ='u32', alg='SUM32', spelling='prefixed')])],
+        opts(LittleEndian='true'), fam='checksum', note='the checksum lives in a referenced packet that is encoded after a header and a body: it covers all of them')
     add('cks_two_widths', [Packet('Root', [F('checksum', 'Head', typ='u16', alg='SUM16', spelling='inline'), F('basic', 'A', typ='u16'),
                                             F('checksum', 'Check', typ='u32', alg='CRC32', spelling='inline')], root=True)],
         opts(), fam='checksum')
